@@ -710,6 +710,36 @@ pub fn replay_run(args: &Args) {
     }
 }
 
+/// a game most of which a sampled pass does NOT reach: an unlabelled lottery at the root, below every outcome an
+/// information set of one player followed by one of the other (C08, forgetting family)
+fn branchy_game(r: &mut Rng) -> Tree {
+    use crate::tree::{CKid, Num, PKid};
+    let first = 1 + r.below(2) as u8;
+    let outcomes = 2 + r.below(2) as usize;
+    Tree::C {
+        ci: "none".into(),
+        kids: (0..outcomes)
+            .map(|j| CKid {
+                w: Num::I(r.range(1, 3)),
+                t: Tree::P {
+                    pl: first,
+                    info: format!("x{j}"),
+                    kids: (0..2)
+                        .map(|a| PKid {
+                            a: format!("a{a}"),
+                            t: Tree::P {
+                                pl: 3 - first,
+                                info: format!("y{j}"),
+                                kids: (0..2).map(|b| PKid { a: format!("b{b}"), t: Tree::T { pay: Num::I(r.range(-3, 3)) } }).collect(),
+                            },
+                        })
+                        .collect(),
+                },
+            })
+            .collect(),
+    }
+}
+
 /// C08, two consecutive iterations from an injected state with exact (rational) discount factors
 pub fn gen_step2(args: &Args) {
     let seed = args.num("seed", 1);
@@ -723,9 +753,25 @@ pub fn gen_step2(args: &Args) {
         let mut t = tree::gen_tree(&mut r, &small_cfg(id));
         tree::shorten(&mut t);
         label_chance(&mut t);
-        let meth = METHODS[(id % 3) as usize];
-        let it = 1 + (id / 3) % 3;
-        let par = gen_rational_params(&mut r, 3);
+        let mut meth = METHODS[(id % 3) as usize];
+        let mut it = 1 + (id / 3) % 3;
+        let mut par = gen_rational_params(&mut r, 3);
+        // the FORGETTING family (one case in four): positive regrets are discounted to exactly zero (alpha = -inf, t >= 2)
+        // under a sampled method - an infoset the second iteration does not reach must still be matched again (to the
+        // fall-back rule), which only an implementation that re-matches every infoset in every iteration does
+        let forgetting = r.chance(0.25);
+        if forgetting {
+            if r.chance(0.7) {
+                t = branchy_game(&mut r);
+                label_chance(&mut t);
+            }
+            meth = METHODS[1 + r.below(2) as usize];
+            it = 2 + r.below(2);
+            let ab = [json!(["ninf"]), json!(["q", -1, 1]), json!(["q", 0, 1]), json!(["q", 1, 1]), json!(["pinf"])];
+            let g = [json!(["q", 0, 1]), json!(["q", 1, 1]), json!(["q", 2, 1])];
+            let w = [json!(["ninf"]), json!(["q", 0, 1]), json!(["pinf"])];
+            par = json!({"a": ["ninf"], "b": gen_e(&mut r, &ab), "g": gen_e(&mut r, &g), "w": gen_e(&mut r, &w)});
+        }
         let mut state = Vec::new();
         for pl in 1..=2u8 {
             let mut infos = BTreeMap::new();
@@ -733,7 +779,16 @@ pub fn gen_step2(args: &Args) {
             let mut m = serde_json::Map::new();
             for (name, acts) in infos.iter() {
                 let k = acts.len();
-                let rv: Vec<(i64, i64)> = (0..k).map(|_| *r.pick(&regs)).collect();
+                let mut rv: Vec<(i64, i64)> = (0..k).map(|_| *r.pick(&regs)).collect();
+                if forgetting {
+                    // one positive regret, the others distinct and negative: the fall-back rule has no tie to break
+                    // (two positive regrets every other time: proportional matching then differs from every fall-back rule)
+                    let hot = r.below(k as u64) as usize;
+                    let hot2 = if r.chance(0.5) { r.below(k as u64) as usize } else { hot };
+                    for (j, x) in rv.iter_mut().enumerate() {
+                        *x = if j == hot || j == hot2 { (1 + r.below(3) as i64, 1) } else { (-(1 + j as i64), 1) };
+                    }
+                }
                 let sv: Vec<(i64, i64)> = (0..k).map(|_| *r.pick(&strs)).collect();
                 let mut parts = vec![0i64; k];
                 for _ in 0..4 {
